@@ -131,7 +131,7 @@ def analyze(job: dict) -> dict:
             return out
         schema = build_schema(job["schema"] if isinstance(job["schema"], str) else "\n".join(job["schema"].values()))
         sdl = job["schema"] if isinstance(job["schema"], str) else "\n".join(job["schema"].values())
-        modes = set(job.get("modes") or ["accept", "faith", "strict"])
+        modes = set(job.get("modes_override") or job.get("modes") or ["accept", "faith", "strict"])
         known = job.get("known") or []
         for mi in pkg.client_methods(job.get("config", {}).get("client_file_name", "client")):
             if mi.query is None or mi.model is None:
@@ -166,6 +166,14 @@ def finding(out, job, mi, sig, what, payload, dirvars, extra=None) -> None:
 def analyze_method(job, sdl, schema, pkg: Package, rt: PkgRuntime, mi, modes, known, out):
     stats = out["stats"]
     doc = parse(mi.query)
+    from graphql import specified_rules, validate as _validate
+
+    errs = _validate(schema, doc, specified_rules)
+    if errs:
+        # the document the client sends is not even valid for the user's schema: no conformant server returns data for it
+        for q in sorted(modes & {"accept", "strict", "frag"})[:1]:
+            finding(out, job, mi, {"q": q, "problem": "sent_document_invalid"}, f"the document sent by {mi.name} is invalid against the schema: {errs[0].message[:200]}", None, {}, {"q": "sent_document"})
+        return
     ctx = ez.Ctx(schema, doc, pkg, L=job.get("L", 2), opname=mi.operation_name)
     r = ez.root(ctx)
     stats["ops"] += 1
@@ -315,10 +323,11 @@ def analyze_method(job, sdl, schema, pkg: Package, rt: PkgRuntime, mi, modes, kn
         fmod = job.get("config", {}).get("fragments_module_name", "fragments")
         prs = up.pairs(model_ann, r, client_mod)
         for n in ctx.nodes:
-            for fname in qualifying_spreads(ctx, n):
+            for fname, fvi in qualifying_spreads(ctx, n):
                 stats["frag_sites"] = stats.get("frag_sites", 0) + 1
+                vguard = z3.BoolVal(True) if fvi is None else (n.rt == fvi)
                 fci = pkg.resolve(fmod, str_to_pascal_case(fname)) if fmod in pkg.modules else None
-                site = {"fragment": fname, "position": "/".join(map(str, n.path)), "on": get_named_type(n.expect).name}
+                site = {"fragment": fname, "position": "/".join(map(str, n.path)), "on": get_named_type(n.expect).name, "variant": None if fvi is None else n.poss[fvi].name}
                 if fci is None:
                     sig = {"q": "frag", "problem": "fragment_class_missing", "fragments_module_exists": fmod in pkg.modules}
                     finding(out, job, mi, sig, f"fragment {fname} is directly spread at {site['position']} but its class is not defined in {fmod}.py", None, {}, {"q": "frag", **site})
@@ -327,13 +336,14 @@ def analyze_method(job, sdl, schema, pkg: Package, rt: PkgRuntime, mi, modes, kn
                 for g, ci2, n2 in prs:
                     if n2 is not n or pkg.is_subclass(ci2, fci):
                         continue
-                    s = solver_for(ctx, C, n.live, g)
+                    s = solver_for(ctx, C, n.live, g, vguard)
                     res = check_sat(s, stats)
                     if res == "sat":
                         m = s.model()
                         payload = ez.concretize(ctx, m, r)
                         rr = rt.validate(ci.module, ci.name, payload)
-                        sig = {"q": "frag", "problem": "not_instance_of_fragment_class", "abstract_position": is_abstract_type(get_named_type(n.expect))}
+                        sig = {"q": "frag", "problem": "not_instance_of_fragment_class", "abstract_position": is_abstract_type(get_named_type(n.expect)),
+                               "fragment_on": "position_type" if fvi is None else "runtime_object_type"}
                         if not rr["accepted"]:
                             break
                         finding(out, job, mi, sig, f"object at {site['position']} is validated by {ci2.name}, which is not a subclass of {fci.name}; payload={payload}", payload,
@@ -343,7 +353,7 @@ def analyze_method(job, sdl, schema, pkg: Package, rt: PkgRuntime, mi, modes, kn
                         out["inconclusive"].append(f"{mi.name}: Q8 solver {res}")
                 # (ii) F's class alone validates every conformant sub-payload
                 AF = up.acc_class(fci, n)
-                s = solver_for(ctx, C, n.live, z3.Not(n.is_null()), z3.Not(AF))
+                s = solver_for(ctx, C, n.live, vguard, z3.Not(n.is_null()), z3.Not(AF))
                 res = check_sat(s, stats)
                 if res == "sat":
                     m = s.model()
@@ -362,6 +372,30 @@ def analyze_method(job, sdl, schema, pkg: Package, rt: PkgRuntime, mi, modes, kn
                                 ez.dirvar_values(ctx, m), {"q": "frag", **site, "sub_payload": subp})
                 elif res != "unsat":
                     out["inconclusive"].append(f"{mi.name}: Q8b solver {res}")
+
+    # ---------------- image of configured custom scalars: "Any only for unconfigured custom scalars"
+    conf_scalars = set((job.get("config") or {}).get("scalars") or {})
+    if conf_scalars and ("strict" in modes or "image" in modes):
+        import ast as _ast
+
+        for g, ci2, n2 in up.pairs(model_ann, r, client_mod):
+            if n2.variants is None:
+                continue
+            for f in pkg.all_fields(ci2).values():
+                for vi, var in enumerate(n2.variants):
+                    ent = var.get(f.key)
+                    if ent is None or ent[2].expect is None:
+                        continue
+                    if get_named_type(ent[2].expect).name not in conf_scalars:
+                        continue
+                    names = {x.id for x in _ast.walk(ez.Pyd.norm(f.ann)) if isinstance(x, _ast.Name)}
+                    if "Any" not in names:
+                        continue
+                    s = solver_for(ctx, C, ent[2].live, g, n2.rt == vi)
+                    if check_sat(s, stats) == "sat":
+                        sig = {"q": "strict", "corruption": "image", "problem": "configured_scalar_typed_any", "class_module": ci2.module}
+                        finding(out, job, mi, sig, f"{ci2.module}.{ci2.name}.{f.name} is annotated {_ast.unparse(f.ann)} although scalar {get_named_type(ent[2].expect).name} is configured with a type", None, {}, {"q": "image"})
+                    break
 
     # ---------------- Q5: single-point corruptions that are accepted
     if "strict" in modes:
@@ -422,31 +456,41 @@ def analyze_method(job, sdl, schema, pkg: Package, rt: PkgRuntime, mi, modes, kn
 
 
 def qualifying_spreads(ctx, node):
-    """fragments F directly spread (without @skip/@include) by a selection set evaluated for exactly F's type, F without
-    inline fragments -> list of fragment names (recursing through such fragments' own selection sets)"""
+    """fragments F directly spread (without @skip/@include) by a selection set that is evaluated for exactly F's type, F without
+    inline fragments -> list of (fragment name, variant index | None).  A selection set at an abstract position is evaluated
+    for the runtime object type, so a fragment on object type T qualifies for the variant T (variant index), a fragment on
+    the position's own type qualifies for every variant (None).  Recurses through such fragments' own selection sets."""
     from graphql import FragmentSpreadNode, InlineFragmentNode
 
     if node.expect is None or node.variants is None:
         return []
     tname = get_named_type(node.expect).name
+    rt_names = {p.name: i for i, p in enumerate(node.poss or [])}
     found = []
-    todo = [e[1].selection_set for e in node.entries if e[1].selection_set is not None]
+    todo = [(e[1].selection_set, None) for e in node.entries if e[1].selection_set is not None]
     seen = set()
     while todo:
-        ss = todo.pop()
+        ss, vi = todo.pop()
         for sel in ss.selections:
             if isinstance(sel, FragmentSpreadNode):
                 if any(d.name.value in ("skip", "include") for d in sel.directives or ()):
                     continue
                 fd = ctx.frags[sel.name.value]
-                if fd.type_condition.name.value != tname:
+                tc = fd.type_condition.name.value
+                if tc == tname:
+                    v2 = vi
+                elif vi is None and tc in rt_names and len(rt_names) > 1:
+                    v2 = rt_names[tc]
+                elif vi is not None and tc == node.poss[vi].name:
+                    v2 = vi
+                else:
                     continue
                 if any(isinstance(x, InlineFragmentNode) for x in fd.selection_set.selections):
                     continue
-                if sel.name.value not in seen:
-                    seen.add(sel.name.value)
-                    found.append(sel.name.value)
-                    todo.append(fd.selection_set)
+                if (sel.name.value, v2) not in seen:
+                    seen.add((sel.name.value, v2))
+                    found.append((sel.name.value, v2))
+                    todo.append((fd.selection_set, v2))
     return found
 
 
